@@ -106,7 +106,14 @@ def make_case(cid, rng, mix):
     g.single = rng.random() < mix.get('single', 0.5)
     g.multi = rng.random() < mix.get('multi', 0.35)
     g.blockfirst = rng.random() < mix.get('blockfirst', 0.25)
-    g.loops = rng.random() < mix.get('loops', 0.2)
+    g.loops = rng.random() < mix.get('loops', 0.3)
+    g.withs = rng.random() < mix.get('withs', 0.2)
+    if rng.random() < 0.08:
+        # a program that consists of the injected shapes only: few executions, so the exhaustive exploration always fits the budget
+        g.tiny = True
+        g.single = False
+        g.loops = True
+        g.withs = rng.random() < 0.5
     body, nsites, nreads = prog.number(g.program())
     locals_ = sorted(prog.bound_names(body))
     pre = []
